@@ -9,6 +9,7 @@ import (
 	"encoding/json"
 	"errors"
 	"fmt"
+	"io"
 	"math"
 	"os"
 	"runtime"
@@ -23,6 +24,11 @@ import (
 
 func jsonUnmarshal(d []byte, v interface{}) error { return json.Unmarshal(d, v) }
 
+type wrappedErr struct{ inner error }
+
+func (w *wrappedErr) Error() string { return "vf: sink failed: " + w.inner.Error() }
+func (w *wrappedErr) Unwrap() error { return w.inner }
+
 // nopLogger discards everything. Its Errorf/Infof can be made slow (logDelay, nanoseconds): a slow log sink is a
 // legitimate timing of the library's goroutines (the reader logs before it publishes its stop reason), used by the
 // C05/C06 schedule classes as a black-box scheduling gate.
@@ -31,8 +37,14 @@ type nopLogger struct{}
 var logDelay int64
 var logFastG int64 // goroutine whose log calls are not delayed (the one that called Stream)
 
+var logDelayCaller int64 // delay also for the goroutine that called Stream (its log line before the dump request)
+
 func slowLog() {
 	if d := atomic.LoadInt64(&logDelay); d > 0 && int64(goid()) != atomic.LoadInt64(&logFastG) {
+		time.Sleep(time.Duration(d))
+		return
+	}
+	if d := atomic.LoadInt64(&logDelayCaller); d > 0 {
 		time.Sleep(time.Duration(d))
 	}
 }
@@ -319,6 +331,7 @@ type AttemptPlan struct {
 	ConnFault    string
 	Inject       *Inject
 	HandlerErrAt int    // index (within the attempt) of the transaction whose handler call fails; -1
+	HandlerErrKind string // which error value the handler returns: "" (an ordinary error) | canceled | deadline | eof | wrapped
 	MapperFault  string // "" | err:db.t | mismatch:db.t
 	CancelAtTx   int    // cancel the context from inside the handler of transaction index k (before it returns); -1
 	CancelAtPkt  int    // cancel when packet index i has been sent; -1
@@ -339,7 +352,7 @@ func defaultAttempt() AttemptPlan {
 
 func (a AttemptPlan) J() M {
 	m := M{"pacing": a.Pacing, "end": a.End, "connfault": orNone(a.ConnFault), "handlerErrAt": a.HandlerErrAt,
-		"mapperFault": orNone(a.MapperFault), "cancelAtTx": a.CancelAtTx, "cancelAtPkt": a.CancelAtPkt,
+		"mapperFault": orNone(a.MapperFault), "handlerErrKind": orNone(a.HandlerErrKind), "cancelAtTx": a.CancelAtTx, "cancelAtPkt": a.CancelAtPkt,
 		"handlerBlock": a.HandlerBlock, "scribble": a.Scribble, "dead": a.Dead, "cancelAfterReturn": a.CancelAfterReturn,
 		"logDelayMs": a.LogDelayMs, "skipError": a.SkipError, "hookTrace": a.HookTrace, "hookFuzz": a.HookFuzz != 0}
 	if a.Fault != nil {
@@ -659,7 +672,19 @@ func (rs *runState) runAttempt(att int, a AttemptPlan, dsnOverride string) {
 		}
 		var err error
 		if a.HandlerErrAt == k {
-			err = fmt.Errorf("vf: handler failure at %d", k)
+			// the handler may fail with ANY error value, including ones the library gives a meaning to elsewhere
+			switch a.HandlerErrKind {
+			case "canceled":
+				err = context.Canceled
+			case "deadline":
+				err = context.DeadlineExceeded
+			case "eof":
+				err = io.EOF
+			case "wrapped":
+				err = &wrappedErr{context.Canceled}
+			default:
+				err = fmt.Errorf("vf: handler failure at %d", k)
+			}
 		}
 		rec.Emit(M{"ev": "handlerReturn", "att": att, "k": k, "res": errJ(err)})
 		hmu.Lock()
@@ -691,6 +716,11 @@ func (rs *runState) runAttempt(att int, a AttemptPlan, dsnOverride string) {
 	}
 	atomic.StoreInt64(&logDelay, int64(a.LogDelayMs)*int64(time.Millisecond))
 	defer atomic.StoreInt64(&logDelay, 0)
+	if a.ConnFault == "set_then_reset" {
+		// give the reset time to arrive before the library writes its dump request (it logs just before)
+		atomic.StoreInt64(&logDelayCaller, int64(30*time.Millisecond))
+		defer atomic.StoreInt64(&logDelayCaller, 0)
+	}
 	if a.HookTrace {
 		setHooks(rec, att, a.HookFuzz)
 	} else {
